@@ -35,10 +35,10 @@ func verifC14AtomFile(bufLen int) {
 	offs := []int{0, 9, 18}
 	a := offs[verifChoice("a", 3)]
 	b := offs[verifChoice("b", 3)]
-	ref := &FileRuleList{ID: 1, File: verifFile(text), buffer: make([]byte, bufLen)}
+	ref := verifNewFileList(1, verifFile(text), bufLen)
 	wa, wea := ref.RetrieveRule(a)
 	wb, web := ref.RetrieveRule(b)
-	l := &FileRuleList{ID: 1, File: verifFile(text), buffer: make([]byte, bufLen)}
+	l := verifNewFileList(1, verifFile(text), bufLen)
 	if !verifSymbolic() {
 		ok := verifStress(20000, func() bool {
 			r, err := l.RetrieveRule(a)
@@ -79,9 +79,9 @@ func verifC14AtomStorage(kind, warm int) {
 		case 0:
 			l = &StringRuleList{ID: 1, RulesText: text}
 		case 1:
-			l = &FileRuleList{ID: 1, File: verifFile(text), buffer: make([]byte, 8)}
+			l = verifNewFileList(1, verifFile(text), 8)
 		default:
-			l = &FileRuleList{ID: 1, File: verifFile(text), buffer: make([]byte, 16)}
+			l = verifNewFileList(1, verifFile(text), 16)
 		}
 		s, err := NewRuleStorage([]RuleList{l})
 		if err != nil {
@@ -130,5 +130,5 @@ func verifC14AtomStorage(kind, warm int) {
 
 // VerifFileList is a file-backed list over the file model (natively a temp file).
 func VerifFileList(text string, bufLen int) *FileRuleList {
-	return &FileRuleList{ID: 1, File: verifFile(text), buffer: make([]byte, bufLen)}
+	return verifNewFileList(1, verifFile(text), bufLen)
 }
